@@ -181,7 +181,7 @@ func TestVerifK8s(t *testing.T) {
 				out.Stat("password", 1)
 			}
 			if s.Src != "" {
-				out.Stat("source_address(F19 shape)", 1)
+				out.Stat("source_address(F24 shape)", 1)
 			}
 			if s.Iface != "" {
 				out.Stat("unnumbered", 1)
